@@ -1,2 +1,99 @@
-(* placeholder while the model is brought into correspondence *)
-From V Require Import Lib.Base Model.C31.
+(* C31 — Publishing and resolving endpoint info preserves it.
+   This file holds ONLY the property theorems; each is closed by `exact`. *)
+From V Require Import Lib.Base Lib.Dec Gen.Consts Model.C31 Proofs.C31.
+Import C31.
+Open Scope N_scope.
+
+(* TXT route.  For ANY types of URLs and socket addresses with printers and
+   parsers such that parsing a printed value gives the value back and a socket
+   address text always contains ':', and for EVERY endpoint info (any number of
+   addresses of every kind, any user-data bytes up to UserData::MAX_LENGTH;
+   custom ids are u64, data are u8): publishing as TXT strings and resolving
+   them yields the same endpoint id, the same SET of addresses and the same
+   user data. *)
+Theorem C31_txt_roundtrip :
+  forall (Url Sock : Type)
+         (url_eqb : Url -> Url -> bool) (sock_eqb : Sock -> Sock -> bool)
+         (print_url : Url -> bytes) (parse_url : bytes -> option Url)
+         (print_sock : Sock -> bytes) (parse_sock : bytes -> option Sock),
+    (forall u v, url_eqb u v = true <-> u = v) ->
+    (forall a b, sock_eqb a b = true <-> a = b) ->
+    (forall u, parse_url (print_url u) = Some u) ->
+    (forall s, parse_sock (print_sock s) = Some s) ->
+    (forall s a, parse_sock s = Some a -> In COLON s) ->
+  forall i : info Url Sock,
+    Forall (fun a => match a with
+                     | Custom id d => id <= 18446744073709551615 /\ Forall (fun b => b < 256) d
+                     | _ => True
+                     end) (addrs i) ->
+    match udata i with Some s => len s <= C31_USER_DATA_MAX_LENGTH | None => True end ->
+    exists i',
+      resolve_txt Url Sock url_eqb sock_eqb print_url parse_url print_sock parse_sock i = Ok i' /\
+      eid i' = eid i /\
+      (forall a, In a (addrs i') <-> In a (addrs i)) /\
+      udata i' = udata i.
+Proof.
+  exact (fun U S ue se pu pau ps pas H1 H2 H3 H4 H5 i Ha Hu =>
+           txt_roundtrip U S ue se pu pau ps pas H1 H2 H3 H4 H5 i (conj Ha Hu)).
+Qed.
+Print Assumptions C31_txt_roundtrip.
+
+(* Signed-packet route: for every value whose TXT strings fit the packet
+   (each string <= 255 bytes, DNS packet <= MAX_DNS_PACKET_SIZE) the same holds.
+   (The DNS layer is modelled as returning the strings it was given.) *)
+Theorem C31_packet_roundtrip :
+  forall (Url Sock : Type)
+         (url_eqb : Url -> Url -> bool) (sock_eqb : Sock -> Sock -> bool)
+         (print_url : Url -> bytes) (parse_url : bytes -> option Url)
+         (print_sock : Sock -> bytes) (parse_sock : bytes -> option Sock),
+    (forall u v, url_eqb u v = true <-> u = v) ->
+    (forall a b, sock_eqb a b = true <-> a = b) ->
+    (forall u, parse_url (print_url u) = Some u) ->
+    (forall s, parse_sock (print_sock s) = Some s) ->
+    (forall s a, parse_sock s = Some a -> In COLON s) ->
+  forall i : info Url Sock,
+    Forall (fun a => match a with
+                     | Custom id d => id <= 18446744073709551615 /\ Forall (fun b => b < 256) d
+                     | _ => True
+                     end) (addrs i) ->
+    match udata i with Some s => len s <= C31_USER_DATA_MAX_LENGTH | None => True end ->
+    encode_packet (to_txt_strings (to_attrs Url Sock print_url print_sock i)) = Ok tt ->
+    exists i',
+      resolve_pkt Url Sock url_eqb sock_eqb print_url parse_url print_sock parse_sock i = Ok i' /\
+      eid i' = eid i /\
+      (forall a, In a (addrs i') <-> In a (addrs i)) /\
+      udata i' = udata i.
+Proof.
+  exact (fun U S ue se pu pau ps pas H1 H2 H3 H4 H5 i Ha Hu He =>
+           packet_roundtrip U S ue se pu pau ps pas H1 H2 H3 H4 H5 i (conj Ha Hu) He).
+Qed.
+Print Assumptions C31_packet_roundtrip.
+
+(* The code before the fix (value = second part of split('=')) does NOT have the
+   property: user data "a=b=c" never comes back. *)
+Theorem C31_old_split_refuted :
+  exists (i : info bytes bytes),
+    (match udata i with Some s => len s <= C31_USER_DATA_MAX_LENGTH | None => True end) /\ addrs i = [] /\
+    forall i', resolve_txt_old bytes bytes bytes_eqb bytes_eqb id_fn (fun _ => None) id_fn (fun _ => None) i = Ok i' ->
+               udata i' <> udata i.
+Proof. exact old_split_refuted. Qed.
+Print Assumptions C31_old_split_refuted.
+
+(* The model used by the correspondence check satisfies the monitor on EVERY
+   input (any addresses, any user data, any parser table). *)
+Theorem C31_model_satisfies_monitor : forall i, monitor i (model i) = true.
+Proof. exact model_monitor. Qed.
+Print Assumptions C31_model_satisfies_monitor.
+
+(* The boolean monitor evaluated on implementation outputs is exactly the property. *)
+Theorem C31_monitor_is_property : forall i o ud,
+  hyp_holds i = true -> mk_user_data (in_ud i) = Ok ud ->
+  (monitor i o = true <->
+   exists r, o = Ok r /\
+     (exists t, o_txt r = Ok t /\
+        eid t = in_id i /\ (forall a, In a (addrs t) <-> In a (in_addrs i)) /\ udata t = ud) /\
+     (o_pkt r = Err 1 \/ o_pkt r = Err 2 \/
+      exists p, o_pkt r = Ok p /\
+        eid p = in_id i /\ (forall a, In a (addrs p) <-> In a (in_addrs i)) /\ udata p = ud)).
+Proof. exact monitor_spec. Qed.
+Print Assumptions C31_monitor_is_property.
